@@ -227,7 +227,8 @@ def _report(mod, pid, tier, seed, agg, wall, ncases):
     by_key = {}
     for v in agg['violations']:
         by_key.setdefault(v['key'], []).append(v)
-    os.makedirs(os.path.join(VERIF, 'replays'), exist_ok=True)
+    RDIR = os.environ.get('VERIF_REPLAY_DIR') or os.path.join(VERIF, 'replays')
+    os.makedirs(RDIR, exist_ok=True)
     new_viol = 0
     known_matched = {}
     lines = []
@@ -239,7 +240,7 @@ def _report(mod, pid, tier, seed, agg, wall, ncases):
             continue
         new_viol += len(vs)
         h = hashlib.sha1(key.encode()).hexdigest()[:10]
-        path = os.path.join(VERIF, 'replays', '%s-%s.json' % (pid, h))
+        path = os.path.join(RDIR, '%s-%s.json' % (pid, h))
         with open(path, 'w') as f:
             json.dump(_jsonable({'property': pid, 'key': key, 'count': len(vs), 'case': vs[0]['case'],
                                  'detail': vs[0]['detail'], 'seed': seed, 'tier': tier}, keepinf=True), f, indent=1)
@@ -285,8 +286,9 @@ def _report(mod, pid, tier, seed, agg, wall, ncases):
         'wall_s': round(wall, 2),
         'violations': new_viol,
     }
-    os.makedirs(os.path.join(VERIF, 'evidence'), exist_ok=True)
-    with open(os.path.join(VERIF, 'evidence', pid + '.json'), 'w') as f:
+    EDIR = os.environ.get('VERIF_EVIDENCE_DIR') or os.path.join(VERIF, 'evidence')
+    os.makedirs(EDIR, exist_ok=True)
+    with open(os.path.join(EDIR, pid + '.json'), 'w') as f:
         json.dump(ev, f, indent=1, sort_keys=True)
         f.write('\n')
 
